@@ -13,17 +13,21 @@ SOURCES = ['celt/x86/x86cpu.c', 'celt/x86/x86cpu.h', 'celt/x86/x86_celt_map.c', 
            'silk/float/x86/inner_product_FLP_avx2.c', 'silk/float/inner_product_FLP.c', 'silk/VQ_WMat_EC.c',
            'silk/NSQ.c', 'silk/NSQ_del_dec.c', 'silk/NSQ.h', 'silk/VAD.c', 'silk/main.h', 'silk/macros.h', 'silk/SigProc_FIX.h',
            'silk/lin2log.c', 'silk/control_codec.c', 'silk/float/wrappers_FLP.c', 'silk/quant_LTP_gains.c',
-           'silk/tables_LTP.c', 'silk/structs.h', 'silk/define.h']
+           'silk/tables_LTP.c', 'silk/structs.h', 'silk/define.h', 'silk/Inlines.h', 'silk/ana_filt_bank_1.c']
 REQUIRED_THEOREMS = ['OpusProps.C15.' + t for t in (
     'arch_range', 'arch_decision', 'dispatch_shape', 'dispatch_safe', 'float_kernels_fixed_below_avx2', 'vqWMatEC_sse_eq_c',
     'lanes_eq_seq_inner_prod', 'lanes_eq_seq_dual_inner_prod', 'lanes_eq_seq_xcorr_kernel',
     'lanes_eq_seq_pitch_xcorr', 'lanes_eq_seq_comb_filter', 'lanes_eq_seq_inner_product_flp',
-    'nsq_scale_lanes_eq_smulww_partial')]
+    'nsq_scale_states_sse_eq_c', 'vad_energy_sse_eq_c', 'sar_round_smulww_avx2_eq_c')]
 UNPROVED = [
-    'nsq_simd_eq_c: silk_NSQ_sse4_1 / silk_NSQ_del_dec_sse4_1 / silk_NSQ_del_dec_avx2 return the same silk_nsq_state, indices '
-    'and pulses as silk_NSQ_c / silk_NSQ_del_dec_c for every state the encoder can hand over (about 2700 lines of intrinsics, no Lean '
-    'model; guarded only by the differential search S4 on live and perturbed encoder states).',
-    'vad_simd_eq_c: silk_VAD_GetSA_Q8_sse4_1 = silk_VAD_GetSA_Q8_c (no Lean model; S4 only).',
+    'nsq_del_dec_simd_eq_c: silk_NSQ_del_dec_sse4_1 / silk_NSQ_del_dec_avx2 return the same silk_nsq_state, indices and pulses as '
+    'silk_NSQ_del_dec_c for every state the encoder can hand over (about 2000 lines of intrinsics; only silk_sar_round_smulww has a '
+    'Lean model; guarded by the differential search S4 on live and perturbed encoder states). For silk_NSQ_sse4_1 the part that '
+    'differs from silk_NSQ_c on reachable shapes — silk_nsq_scale_states_sse4_1 — is proved equal; that the rest of the function is '
+    'the same text as silk_NSQ_c (plus a table and a branch used only for the unselectable shaping order 10) is a fact of the source, '
+    'not a theorem.',
+    'vad_simd_eq_c: silk_VAD_GetSA_Q8_sse4_1 = silk_VAD_GetSA_Q8_c as whole functions (the only part that differs, the sub-frame '
+    'energy loop, is proved equal; that the remaining text is identical is a fact of the source; S4 compares the whole functions).',
     'pvq_search_sse2: op_pvq_search_sse2 returns a valid pulse vector of the same quality as op_pvq_search_c (no Lean model; S4 checks '
     'pulse count, signs, returned energy and a calibrated score margin).',
     'float_error_bound: |SIMD - C| <= 2*gamma_n*sum|x_i*y_i| in IEEE binary32/64 arithmetic for the reduction kernels. The Lean '
@@ -38,7 +42,11 @@ RULE = ('exact domain, enumerated: every length 0..72 (thorough: 0..1100) for ce
         'five data styles (all-at-bound so the sum reaches 2^24, alternating, position-coded, sparse, uniform). silk_VQ_WMat_EC: the '
         'three real LTP codebooks with correlation-like matrices, random codebooks of 0..40 vectors, int8/uint8 extremes, full-range '
         '32-bit data in the non-sanitizer build. Arch selection: all 2^6 combinations of the CPUID bits read x nIds in '
-        '{0,1,6,7,8,13} x 18 values of the cap variable, plus random registers. Dispatch: every table, every index. A case is '
+        '{0,1,6,7,8,13} x 18 values of the cap variable, plus random registers. Dispatch: every table, every index. '
+        'silk_nsq_scale_states: 8/12/16 kHz geometry and odd sub-frame/memory lengths (vector tails), gains and states over the whole '
+        '32-bit range, equal/changed gain, voiced/unvoiced, re-whitening on/off; silk_INVERSE32_varQ / silk_DIV32_varQ / '
+        'silk_sar_round_smulww on random and boundary operands; VAD energy loop: every loop executed by both compiled functions '
+        '(recorded through a macro hook) on random, loud, silent and injected extreme band signals (all -32768). A case is '
         'distinct by (operation, variant set, outcome class).')
 NOT_COVERED = [
     'observation (dead code, not a violation): silk_noise_shape_quantizer_10_16_sse4_1 (silk/x86/NSQ_sse4_1.c:283-660, entered only for '
@@ -72,12 +80,15 @@ TRUSTED = ['the 0x49/0x9e/0x4e/0x99/0x55 shuffle immediates, the mask table of x
 CAL = json.load(open(os.path.join(common.VERIF, 'tools', 'c15_calibration.json')))
 
 
+EXTRA = {'c15_nsq': ('-msse4.1', '-mavx2', '-mfma'), 'c15_vadnrg': ('-msse4.1',)}
+
+
 def _harness(ctx, name, variant, link_lib=True):
     """ctx.harness with one retry: the library cache (tools/common.py keeps the 8 newest builds) is shared with the other
     property checks, so a build directory can be pruned between the library build and the harness compilation."""
     for attempt in (0, 1):
         try:
-            return ctx.harness(name, [name + '.c'], variant=variant, link_lib=link_lib)
+            return ctx.harness(name, [name + '.c'], variant=variant, link_lib=link_lib, extra=EXTRA.get(name, ()))
         except RuntimeError:
             if attempt:
                 raise
@@ -92,6 +103,14 @@ def _codec(ctx, variant):
     return _harness(ctx, 'c15_codec', variant)
 
 
+def _nsq(ctx, variant):
+    return _harness(ctx, 'c15_nsq', variant)
+
+
+def _vad(ctx, variant):
+    return _harness(ctx, 'c15_vadnrg', variant)
+
+
 def _arch(ctx):
     return _harness(ctx, 'c15_arch', 'plain', link_lib=False)
 
@@ -102,6 +121,7 @@ def pre_build(ctx):
     for v in ('plain', 'san'):
         _k(ctx, v)
         _codec(ctx, v)
+    _nsq(ctx, 'san'); _nsq(ctx, 'plain'); _vad(ctx, 'san')
     _arch(ctx)
     return {}
 
@@ -114,6 +134,9 @@ def ties(ctx):
     out.append(common.run_tie('kernels-vqwmat', [ks, 'vq', s, '2000' if q else '40000', '0']))
     out.append(common.run_tie('kernels-vqwmat-fullrange', [kp, 'vq', s, '1000' if q else '20000', '1']))
     out.append(common.run_tie('kernels-dispatch', [kp, 'dispatch']))
+    out.append(common.run_tie('kernels-nsq-scale-states', [_nsq(ctx, 'san'), 'scale', s, '500' if q else '12000']))
+    out.append(common.run_tie('kernels-nsq-helpers', [_nsq(ctx, 'plain'), 'helpers', s, '6000' if q else '200000']))
+    out.append(common.run_tie('kernels-vad-energy', [_vad(ctx, 'san'), 'run', s, '250' if q else '8000']))
     out.append(common.run_tie('kernels-selectarch', [_arch(ctx), 'enum', s, '4000' if q else '300000']))
     return out
 
@@ -224,6 +247,18 @@ def classify(ctx, tie, mm):
             return None
         expected = 'every variant = c = %s' % c
         why = 'silk_VQ_WMat_EC: variant(s) %s are not bit-identical to the portable function' % ', '.join(bad)
+    elif op in ('nsqscale', 'vadnrg', 'sarround'):
+        if 'X-MISMATCH' in impl:
+            return None
+        vals = dict(p.split('=', 1) for p in impl.split(' ') if '=' in p)
+        c = vals.get('c')
+        bad = [v for v, x in vals.items() if x != c]
+        if not bad:
+            return None           # every compiled variant agrees with the C code: the model is at fault
+        expected = 'every variant = c = %s' % (c or '')[:300]
+        why = ('%s: variant(s) %s are not bit-identical to the portable C code on this input'
+               % ({'nsqscale': 'silk_nsq_scale_states', 'vadnrg': 'VAD sub-frame energy loop',
+                   'sarround': 'silk_sar_round_smulww'}[op], ', '.join(bad)))
     elif op == 'selectarch':
         try:
             want = _arch_spec(toks)
@@ -326,7 +361,21 @@ def replay(ctx, obj):
     bad = 0
     if lines:
         common.lake_build(['opusmodel'])
-        ker = [l for l in lines if l.split(' ')[1] not in ('selectarch', 'dispatch')]
+        nsq = [l for l in lines if l.split(' ')[1] in ('nsqscale', 'invvarq', 'divvarq', 'sarround')]
+        if nsq:
+            rc, out = common.sh([_nsq(ctx, 'san'), 'stdin'], input='\n'.join(nsq) + '\n', env=env)
+            impl = [l[2:] for l in out.split('\n') if l.startswith('O ')]
+            model = common.model_eval(nsq)
+            for i, l in enumerate(nsq):
+                a = impl[i] if i < len(impl) else '(no answer)'
+                print('input: %s\n  impl:  %s\n  model: %s' % (l[:300], a[:600], (model[i] if i < len(model) else '')[:600]))
+                if i >= len(impl) or a != model[i]:
+                    bad += 1
+        vadl = [l for l in lines if l.split(' ')[1] == 'vadnrg']
+        if vadl:
+            print('input: %s  (re-run by the whole check: `c15_vadnrg run`)' % vadl[0][:200])
+            bad += common.run_tie('kernels-vad-energy', [_vad(ctx, 'san'), 'run', str(obj.get('seed', 1)), '250']).n_mismatch
+        ker = [l for l in lines if l.split(' ')[1] not in ('selectarch', 'dispatch', 'nsqscale', 'invvarq', 'divvarq', 'sarround', 'vadnrg')]
         if ker:
             rc, out = common.sh([_k(ctx, 'san'), 'stdin'], input='\n'.join(ker) + '\n', env=env)
             impl = [l[2:] for l in out.split('\n') if l.startswith('O ')]
@@ -358,12 +407,15 @@ def replay(ctx, obj):
 
 LEVEL_TEXT = ('proof (partial): kernel-checked Lean theorems for all inputs that (i) opus_select_arch returns 0..4, follows the '
               'feature-prefix decision list, and every regenerated RTCD table holds at every selectable index a real function whose '
-              'feature level the CPU has; (ii) silk_VQ_WMat_EC_sse4_1 equals silk_VQ_WMat_EC_c bit for bit for every input; (iii) '
+              'feature level the CPU has; (ii) silk_VQ_WMat_EC_sse4_1 equals silk_VQ_WMat_EC_c bit for bit for every input, '
+              'silk_nsq_scale_states_sse4_1 equals silk_nsq_scale_states as a whole, the VAD sub-frame energy loop of the SSE4.1 kernel '
+              'equals the portable one, silk_sar_round_smulww (AVX2) equals RSHIFT_ROUND(SMULWW) of the C kernel; (iii) '
               'celt_inner_prod_sse, dual_inner_prod_sse, xcorr_kernel_sse, celt_pitch_xcorr_avx2/_c, comb_filter_const_sse and '
               'silk_inner_product_FLP_avx2/_c equal the sequential sums for every length in any commutative semiring (so they differ '
               'from the C code by reassociation only); the models are tied to the compiled kernels by an exact-domain differential '
-              'run (bit-identical on integer-valued floats, every length, random alignments, under ASan). The NSQ, VAD and PVQ-search '
-              'SIMD kernels are compared with their C twins by differential search only.')
+              'run (bit-identical on integer-valued floats, every length, random alignments, under ASan) and by direct differentials of '
+              'the static integer functions (#include of the .c files). The sample loops of the NSQ_del_dec kernels, the remainder of '
+              'the VAD kernel and the PVQ search are compared with their C twins by differential search only.')
 LEVEL_NOTE = ('trusted: Lean kernel; extractor + regen; harness/line protocol; intrinsic semantics as modelled. Not proved: NSQ / NSQ_del_dec '
               '/ VAD / op_pvq_search SIMD = C (search only, on live + perturbed encoder states and all arch caps); IEEE rounding-error '
               'bounds. Fixed-point and ARM kernels are not part of this build.')
